@@ -17,6 +17,7 @@ import tempfile
 VERIF = os.path.dirname(os.path.dirname(os.path.abspath(__file__)))
 # ./check is run from here: a snapshot of /verif (git archive) keeps a long sweep independent of edits made meanwhile
 CHECK_DIR = os.environ.get("VERIF_SNAPSHOT", VERIF)
+REPO_REV = os.environ.get("SWEEP_REPO_REV", "HEAD")   # pin the commit of /repo a long sweep runs against
 PROPS = [json.loads(l)["id"] for l in open(os.path.join(VERIF, "properties.jsonl"))]
 
 
@@ -30,7 +31,7 @@ def run_one(sid, only_props=None, result_name="result.json"):
     tmp = tempfile.mkdtemp(prefix="/tmp/seed_")
     res = {"id": sid}
     try:
-        sh(f"git -C /repo archive HEAD | tar -x -C {tmp}")
+        sh(f"git -C /repo archive {REPO_REV} | tar -x -C {tmp}")
         os.makedirs(f"{tmp}/_out/{sid}", exist_ok=True)
         shutil.copy(os.path.join(d, "demo.py"), f"{tmp}/_out/{sid}/demo.py")
         env = dict(os.environ, PYTHONPATH=tmp)
@@ -47,7 +48,7 @@ def run_one(sid, only_props=None, result_name="result.json"):
         res["demo_patched"] = "PASS" if rc == 0 else "FAIL"
         outdir = os.path.join(tmp, "_verif_out")
         os.makedirs(outdir)
-        env2 = dict(os.environ, PYVC_REPO=tmp, PYVC_OUT=outdir, PYVC_JOBS="6")
+        env2 = dict(os.environ, PYVC_REPO=tmp, PYVC_OUT=outdir, PYVC_JOBS=os.environ.get("SEEDED_JOBS", "6"))
         det = {}
         for p in (only_props or PROPS):
             rc, out = sh(f"./check {p}", cwd=CHECK_DIR, env=env2, timeout=1800)
@@ -91,7 +92,7 @@ def main():
             prop = json.load(open(os.path.join(VERIF, "seeded", i, "meta.json")))["property"]
             return run_one(i, [prop], "result_own.json")
         return run_one(i)
-    with cf.ThreadPoolExecutor(max_workers=3) as ex:
+    with cf.ThreadPoolExecutor(max_workers=int(os.environ.get("SEEDED_WORKERS", "3"))) as ex:
         for r in ex.map(job, ids):
             print(r["id"], "| demo", r.get("demo_unpatched"), "->", r.get("demo_patched"), "| tests:", r.get("tests_patched"),
                   "| detected by:", r.get("detected_by"), "| undecided/error:", r.get("undecided_or_error"))
